@@ -56,6 +56,9 @@ def parseSrc (s : List Char) : Option Src :=
   match s with
   | 'w' :: r => (natOf r).map .wrapper
   | 'r' :: r => (natOf r).map .raw
+  -- untyped / unsized raw pointers offered to the unchecked entry points: the same value kind as far as the model goes
+  | 's' :: r => (natOf r).map .raw
+  | 'y' :: r => (natOf r).map .raw
   | 'l' :: r => match dotted r with | some [v, i, d] => some (.lazyRef v i d) | _ => none
   | _ => none
 
